@@ -11,7 +11,8 @@ payload:
   {"fw": .., "sweep": {"contexts": [ctx, ...], "headers": [h, ...] | null (= all 65536), "procs": n}}
                                                                  -> {"sweep": [per-context result]}
 case   = {"role","fbd","utf8","mask_opt","apply_mask","max_frame","max_msg","pmc","pmc_max","echo","closing",
-          "chunks": [hex, ...], optional "send": {"len": n, "binary": bool}, optional "nolost": bool}
+          "chunks": [hex, ...], optional "send": {"len": n, "binary": bool}, optional "nolost": bool,
+          optional "burst": bool (all reads before the event loop gets a turn), optional "observe_retained": bool}
 result = {"events": [...], "state": "OPEN|CLOSING|CLOSED", "close": [wasClean, code, reason|None] | None, "tape": [hex, ...]}
 events = ["msg", hex, isBinary] ["ping", hex] ["pong", hex] ["sendpong", hex] ["sendclose", code|None, reasonhex|None]
          ["drop", abort] ["escaped", ExcClass] ["raised", ExcClass] ["sendframe", opcode, fin, rsv, length]
@@ -348,6 +349,21 @@ def make_conn(fw, case):
     return wsdrv, conn
 
 
+def retained_octets(proto):
+    """octets the protocol object holds on to: the receive buffer and the frame / message / control-frame payload
+    collected so far (read defensively: the attributes come and go with the receive state)"""
+    def size(x):
+        if x is None:
+            return 0
+        if isinstance(x, (bytes, bytearray, memoryview)):
+            return len(x)
+        try:
+            return sum(size(y) for y in x)
+        except TypeError:
+            return 0
+    return {k: size(getattr(proto, k, None)) for k in ("data", "frame_data", "message_data", "control_frame_data")}
+
+
 def run_case(fw, case):
     wsdrv, conn = make_conn(fw, case)
     n0 = len(conn.log)
@@ -361,8 +377,13 @@ def run_case(fw, case):
             tape.append(bytes(out).hex())
             return out
         pmce.decompress_message_data = rec
-    for c in case["chunks"]:
-        conn.feed(bytes.fromhex(c))
+    chunks = [bytes.fromhex(c) for c in case["chunks"]]
+    if case.get("burst"):
+        conn.feed_burst(chunks)        # asyncio: all data_received() calls first, then ONE loop turn
+    else:
+        for c in chunks:
+            conn.feed(c)
+    retained = retained_octets(conn.proto) if case.get("observe_retained") else None
     if "send" in case:
         conn.call("sendMessage", b"x" * case["send"]["len"], bool(case["send"]["binary"]))
     ev = canon_log(conn.log[n0:], wsdrv)
@@ -376,7 +397,10 @@ def run_case(fw, case):
                 close = [e[1], e[2], e[3] if e[3] is None or e[1] else "-"]
             elif e[0] == "escaped":
                 ev.append(["escaped", e[1]])
-    return {"events": ev, "state": state, "close": close, "tape": tape}
+    res = {"events": ev, "state": state, "close": close, "tape": tape}
+    if retained is not None:
+        res["retained"] = retained
+    return res
 
 
 # ---------- header sweep ----------
